@@ -157,6 +157,31 @@ def still_open():
                         g = gate.apply(ast.parse(cur), ast.parse(ref), lambda t: None)
                     if q in g:
                         out.append((40 + n, 'gate: ' + title))
+            # round 5 (verification of the round-4 rewrite and refinements): r5_findings_<n>.py
+            for n in (1, 2):
+                fn = os.path.join(here, f'r5_findings_{n}.py')
+                if not os.path.exists(fn):
+                    continue
+                spec = importlib.util.spec_from_file_location(f'redteam_r5_{n}', fn)
+                m = importlib.util.module_from_spec(spec)
+                with contextlib.redirect_stdout(io.StringIO()):
+                    spec.loader.exec_module(m)
+                equiv.REPO_DEFINED[0] = frozenset()
+                for title, a, b, kw in m.FINDINGS:
+                    total += 1
+                    try:
+                        s = m.same(a, b, **(kw or {}))
+                    except equiv.NotCanonicalisable:
+                        s = False
+                    if s:
+                        out.append((50 + n, title))
+                for entry in getattr(m, 'GATE_FINDINGS', []):
+                    title, cur, ref, q = entry[:4]
+                    total += 1
+                    equiv.REPO_DEFINED[0] = frozenset()
+                    g = m.gated(title, cur, ref)[0] if n == 1 else m.gated(cur, ref)
+                    if q in g:
+                        out.append((50 + n, 'gate: ' + title))
         finally:
             loader.REPO = saved_env[0]
             if saved_env[1] is not None or hasattr(gate, '_REF'):
